@@ -203,7 +203,8 @@ def mutations(r, fen, limit):
     return out
 
 
-HAND = ["rnbqkbnr/pppppppp/8/8/4P3/8/PPPP1PPP/RNBQKBNR b KQkq e6 0 1", "rnbqkbnr/ppp1pppp/8/3pP3/8/8/PPPP1PPP/RNBQKBNR w KQkq d3 0 2",
+HAND = ["1P2k3/8/8/8/8/8/8/4K3 w - - 0 1", "4k3/8/8/8/8/8/8/1p2K3 b - - 0 1", "1p2k3/8/8/8/8/8/8/4K3 b - - 0 1", "4k3/8/8/8/8/8/8/1P2K3 w - - 0 1",
+        "rnbqkbnr/pppppppp/8/8/4P3/8/PPPP1PPP/RNBQKBNR b KQkq e6 0 1", "rnbqkbnr/ppp1pppp/8/3pP3/8/8/PPPP1PPP/RNBQKBNR w KQkq d3 0 2",
         "9/8/8/8/8/8/8/8 w - -", "rnbqkbnr/pppppppp/8/8/8/8/PPPPPPPP/K6k9 w - -", "rnbqkbnr/pppppppp/45/8/8/8/PPPPPPPP/RNBQKBNR w KQkq -",
         "rnbqkbnr/pppppppp/7/8/8/8/PPPPPPPP/RNBQKBNR w KQkq - 0 1", "rnbqkbnr/pppppppp/08/8/8/8/PPPPPPPP/RNBQKBNR w KQkq - 0 1",
         "rnbqkbnr/pppppppp/8/8/8/8/PPPPPPPP/RNBQKBNR w KQkq A3 0 1", "rnbqkbnr/pppppppp/8/8/8/8/PPPPPPPP/RNBQKBNR w KQkq q3 0 1",
